@@ -1679,12 +1679,17 @@ package stun
 //@ func (*callbackWaitHandler).wait->(*sync.Cond).Wait(c)
 //@   requires gmap(held)[errval(c.L)] == 1
 //@   assigns s.processed
+// entering wait's critical section is what is counted as "Do waited" (ghost cwh_waits)
+//@ func (*callbackWaitHandler).wait->sync.Locker.Lock(l)
+//@   requires gmap(held)[errval(l)] == 0
+//@   assigns gmap(held)[errval(l)], ghost(cwh_waits)
+//@   ensures gmap(held)[errval(l)] == 1 && ghost(cwh_waits) == old(ghost(cwh_waits)) + 1
 //@ func (*callbackWaitHandler).wait
 //@   safety C10
 //@   props C10
 //@   requires CwhOK(s) && gmap(held)[errval(s.cond.L)] == 0
-//@   assigns s.processed, s.callback, gmap(held)[errval(s.cond.L)]
-//@   ensures !s.processed && s.callback == nil && gmap(held)[errval(s.cond.L)] == 0
+//@   assigns s.processed, s.callback, gmap(held)[errval(s.cond.L)], ghost(cwh_waits)
+//@   ensures !s.processed && s.callback == nil && gmap(held)[errval(s.cond.L)] == 0 && ghost(cwh_waits) == old(ghost(cwh_waits)) + 1
 //@   loop 0
 //@     assigns s.processed
 //@     invariant CwhOK(s) && gmap(held)[errval(s.cond.L)] == 1
@@ -1699,9 +1704,11 @@ package stun
 //@   safety C10 C15
 //@   props C10 C15
 //@   requires m != nil && (c == nil || ClientReady(c))
-//@   assigns mem(c.t), gmap(held), ghost(now_last), ghost(wr_n), gmapa(wr_data), gmap(wr_len), gmap(wr_errt), gmap(wr_errv), ghost(ag_n), gmap(ag_op), gmapa(ag_id), gmap(ag_dl), gmap(ag_errt), gmap(ag_errv)
+//@   assigns mem(c.t), gmap(held), ghost(now_last), ghost(wr_n), gmapa(wr_data), gmap(wr_len), gmap(wr_errt), gmap(wr_errv), ghost(ag_n), gmap(ag_op), gmapa(ag_id), gmap(ag_dl), gmap(ag_errt), gmap(ag_errv), ghost(cwh_waits)
 //@   allocates
 //@   ensures NoEvent() && ghost(wr_n) <= old(ghost(wr_n)) + 1
+// with a callback, Do returns nil only after it has waited for the handler's mark; it never waits otherwise
+//@   ensures ghost(cwh_waits) == old(ghost(cwh_waits)) + ite(result == nil && f != nil, 1, 0)
 //@   ensures c == nil || c.c == nil || c.a == nil || c.close == nil ==> result == ErrClientNotInitialized && Writes(0) && AgentOps(0)
 //@   ensures Init(c) && old(c.closed) ==> result == ErrClientClosed && Writes(0) && AgentOps(0) && SameClientTable(c)
 //@   ensures Init(c) && !old(c.closed) && f != nil && old(haskey(c.t, m.TransactionID)) ==> result == ErrTransactionExists && Writes(0) && SameClientTable(c)
